@@ -145,9 +145,9 @@ def tie_entropy(ctx):
     BitW == bitstream.h writer, FSE.buildCTable / encodeAll == FSE_buildCTable_wksp / FSE_encodeSymbol, FSE.buildCells == FSE_buildDTable_wksp,
     HufEnc.codesOf / encode1 / layout4 == HUF_buildCTable / HUF_readCTable / HUF_compress1X / 4X; the decidable hypotheses of the theorems
     (spreadOK, spreadEnc = spread, weightsOK) are evaluated by the driver on every table and the model re-decodes its own streams"""
-    import ent_bitw, ent_fse, ent_huf, ent_lit, ent_seq, ent_frame
+    import ent_bitw, ent_fse, ent_huf, ent_lit, ent_seq, ent_frame, ent_block
     out = {}
-    for name, mod in (("bitw", ent_bitw), ("fse", ent_fse), ("huf", ent_huf), ("lit", ent_lit), ("seq", ent_seq), ("frame", ent_frame)):
+    for name, mod in (("bitw", ent_bitw), ("fse", ent_fse), ("huf", ent_huf), ("lit", ent_lit), ("seq", ent_seq), ("frame", ent_frame), ("block", ent_block)):
         before = len(ctx.violations)
         r = mod.run(ctx)
         out[name] = r.get("evaluations", 0)
@@ -214,14 +214,14 @@ def correspondence(ctx):
 def replay(ctx, data):
     if data.get("ent"):
         # a function-level tie of an encoder-side model: re-run that tie (same seed => same operations) and report whether it still differs
-        import ent_bitw, ent_fse, ent_huf, ent_lit, ent_seq, ent_frame
-        mod = dict(bitw=ent_bitw, fse=ent_fse, huf=ent_huf, lit=ent_lit, seq=ent_seq, frame=ent_frame)[data["ent"]]
+        import ent_bitw, ent_fse, ent_huf, ent_lit, ent_seq, ent_frame, ent_block
+        mod = dict(bitw=ent_bitw, fse=ent_fse, huf=ent_huf, lit=ent_lit, seq=ent_seq, frame=ent_frame, block=ent_block)[data["ent"]]
         if hasattr(mod, "replay") and data.get("op"):
             return mod.replay(ctx, data)
         ctx.rng = zv.Rng(int(data.get("seed", 1)) * 1000003 + sum(map(ord, "C01")))
         tie_rep_codes(ctx)        # consumes the generator exactly as the check did before reaching the entropy ties
         before = len(ctx.violations)
-        for name, m in (("bitw", ent_bitw), ("fse", ent_fse), ("huf", ent_huf), ("lit", ent_lit), ("seq", ent_seq), ("frame", ent_frame)):
+        for name, m in (("bitw", ent_bitw), ("fse", ent_fse), ("huf", ent_huf), ("lit", ent_lit), ("seq", ent_seq), ("frame", ent_frame), ("block", ent_block)):
             m.run(ctx)
             if name == data["ent"]:
                 break
